@@ -63,6 +63,10 @@ def run(ctx, rep):
 
     rep.guarded("R03-ARITY", ar)
     rep.guarded("R03-CASECONST", lambda: r_caseconst(sh, rep))
+    rep.rule("R03-DEPTH", "read-back (with_env) passes the binder depth to every recursive call: unchanged, +1 under Lambda", floor=8)
+    rep.rule("R03-PUSH", "BuiltinRuntime::push appends the argument and cannot fail", floor=1)
+    rep.guarded("R03-DEPTH", lambda: r_depth(sh, rep))
+    rep.guarded("R03-PUSH", lambda: r_push(sh, rep))
 
 
 def ctor_of(e):
@@ -189,6 +193,39 @@ def r_discharge(sh, rep):
     rep.check(src.count("lam_cnt+1") == 1 and "Term::Lambda{parameter_name,body,}=>{letbody=with_env(lam_cnt+1" in src, "R03-DISCHARGE", "with_env#binder-depth", sh.loc(D, we), "with_env must increase the binder depth exactly under Lambda")
 
 
+def _variants_of_matches(mac):
+    """variant names accepted by a `matches!(x, A | B)` node"""
+    if mac.get("k") != "Macro" or last(mac.get("path", "")) != "matches" or "pat" not in mac or "guard" in mac:
+        return None
+    out = set()
+    for alt in pat_alts(mac["pat"]):
+        h = pat_head(alt)
+        if not h:
+            return None
+        out.add(last(h))
+    return out
+
+
+def _admitted_variants(sh, cond):
+    """semantics variants for which `cond` (the refusal condition) is false, i.e. case-on-constant proceeds.
+    Recognised: `!matches!(self.semantics, P)` and `!self.semantics.<helper>()` with `fn helper(&self) -> bool { matches!(self, P) }`"""
+    if cond["k"] != "Unary" or cond["op"] != "!":
+        return None
+    e = cond["e"]
+    if e["k"] == "Macro":
+        return _variants_of_matches(e)
+    if e["k"] == "MethodCall" and not e["args"] and "semantics" in sh.nsrc(M, e["recv"]):
+        for rel in ("crates/uplc/src/machine/runtime.rs", M):
+            try:
+                h = find_method(sh.file(rel), "BuiltinSemantics", e["m"])
+            except AnchorMissing:
+                continue
+            st = h["body"].get("stmts", [])
+            if len(st) == 1 and st[0]["k"] == "ExprStmt":
+                return _variants_of_matches(st[0]["e"])
+    return None
+
+
 def r_caseconst(sh, rep):
     fj = sh.file(M)
     rc = find_method(fj, "Machine", "return_compute")
@@ -203,8 +240,11 @@ def r_caseconst(sh, rep):
     arm = con[0]
     body = arm["body"]
     first = body["stmts"][0]["e"] if body["k"] == "Block" and body["stmts"] and body["stmts"][0]["k"] == "ExprStmt" else None
-    gate = first is not None and first["k"] == "If" and sh.nsrc(M, first["cond"]) == "!matches!(self.semantics,BuiltinSemantics::E)" and "returnErr(Error::NonConstrScrutinized" in sh.nsrc(M, first["then"])
-    rep.check(gate, "R03-CASECONST", "gate#semantics-E-first", sh.loc(M, arm), "case on a constant must be refused unless the semantics variant is E, before anything else in the arm")
+    admitted = None
+    if first is not None and first["k"] == "If" and any(n["k"] == "Return" for n in walk(first["then"])) and "NonConstrScrutinized" in sh.nsrc(M, first["then"]):
+        admitted = _admitted_variants(sh, first["cond"])
+    gate = admitted == {"E"}
+    rep.check(gate, "R03-CASECONST", "gate#semantics-E-first", sh.loc(M, arm), "case on a constant must be refused (NonConstrScrutinized) unless the semantics variant is E, before anything else in the arm; the gate admits %s — under the other variants (PlutusV3 before protocol 11, V1/V2) the ledger fails such a script" % (sorted(admitted) if admitted is not None else "an unrecognised condition"), sample={"admitted": sorted(admitted) if admitted else None})
     tm = [m for m in matches_in(body) if "constant" in sh.nsrc(M, m["e"])]
     if not tm:
         raise AnchorMissing("constant table match")
@@ -240,3 +280,46 @@ def r_caseconst(sh, rep):
     s = sh.nsrc(M, body)
     rep.check("ifbranches.len()>max_branches{returnErr(Error::MissingCaseBranch" in s, "R03-CASECONST", "max-branches-enforced", sh.loc(M, arm), "supplying more branches than the constant's type has constructors must fail")
     rep.check("matchbranches.get(tag){Some(t)=>" in s and "None=>Err(Error::MissingCaseBranch" in s, "R03-CASECONST", "branch-selection-checked", sh.loc(M, arm), "branch selection must be a checked lookup (branches.get(tag))")
+
+
+# ---------------------------------------------------------------------------------------------------------
+# R03-DEPTH: read-back threads the binder depth through every recursive call
+# ---------------------------------------------------------------------------------------------------------
+DIS = "crates/uplc/src/machine/discharge.rs"
+
+
+def r_depth(sh, rep):
+    """with_env(lam_cnt, env, term) substitutes captured variables in a closure body; `lam_cnt` counts the binders crossed
+    so far. Every recursive call must pass the depth on — unchanged, or +1 exactly in the Lambda arm. A literal (or any
+    other expression) at one call site resets the depth for that sub-term only: indices inside are then resolved against
+    the wrong environment slot."""
+    f = find_fn(sh.file(DIS), "with_env")
+    rep.touched(DIS, "discharge::with_env")
+    depth = f["sig"]["inputs"][0]["pat"]["name"]
+    term = find_enum(sh.file("crates/uplc/src/ast.rs"), "Term")
+    m = find_enum_match(f, "Term", {v["name"] for v in term["variants"]})
+    if m is None:
+        raise AnchorMissing("match over Term in with_env")
+    n = 0
+    for v, arm, alt in arm_table(m):
+        for c in calls_in(arm["body"]):
+            if c["k"] == "Call" and call_name(c) == "with_env" and c["args"]:
+                n += 1
+                a = sh.nsrc(DIS, c["args"][0])
+                want = "%s+1" % depth if v == "Lambda" else depth
+                rep.check(a == want, "R03-DEPTH", "with_env#%s#depth-arg#%d" % (v, n), sh.loc(DIS, c), "the recursive call in the %s arm passes `%s` as binder depth, expected `%s`: variables under this sub-term are looked up %s binders off" % (v, a, want, "some"), sample={"arm": v, "passed": a})
+    if n < 8:
+        rep.bad("R03-DEPTH", "with_env#recursive-calls", sh.loc(DIS, f), "only %d recursive calls found in with_env (anchor)" % n)
+
+
+# ---------------------------------------------------------------------------------------------------------
+# R03-PUSH: supplying an argument to a builtin cannot fail; type errors surface when the builtin is saturated
+# ---------------------------------------------------------------------------------------------------------
+def r_push(sh, rep):
+    """UPLC semantics: `[(builtin f) v]` with f unsaturated is a value whatever v is (ill-typed arguments are only
+    detected when the builtin runs). BuiltinRuntime::push is that transition: it must append and return Ok on every path."""
+    f = find_method(sh.file(RT), "BuiltinRuntime", "push")
+    rep.touched(RT, "BuiltinRuntime::push")
+    exits = [n for n in walk(f["body"]) if n["k"] in ("Return", "Try") or (n["k"] == "Call" and call_name(n) == "Err") or (n["k"] == "Macro" and last(n.get("path", "")) in ("panic", "unreachable", "todo"))]
+    pushes = [n for n in walk(f["body"]) if n["k"] == "MethodCall" and n["m"] == "push"]
+    rep.check(not exits and len(pushes) == 1, "R03-PUSH", "BuiltinRuntime::push#total", sh.loc(RT, exits[0]) if exits else sh.loc(RT, f), "BuiltinRuntime::push can fail or leave early (%s at line %s): a partial application of a builtin to an arbitrary value must itself be a value — rejecting it changes the result of programs that build such a closure and never saturate it" % (exits[0]["k"] if exits else "-", exits[0]["s"][0] if exits else "-"), sample={"statements": len(f["body"].get("stmts", []))})
